@@ -629,3 +629,136 @@ Proof.
   2:{ unfold p2At. rewrite val_msb_nil, Nat.sub_diag. change (2 ^ Z.of_nat 0) with 1. lia. }
   rewrite L1, L2. exact L3.
 Qed.
+
+(** * the enumerated pre-order: [all_nodes] agrees with the recursive definitions *)
+
+Lemma all_nodes_length h : Z.of_nat (length (all_nodes h)) = 2 ^ (Z.of_nat h + 1) - 1.
+Proof.
+  induction h as [|k IH]; [reflexivity|].
+  cbn [all_nodes length]. rewrite app_length, !map_length.
+  replace (Z.of_nat (S k) + 1) with ((Z.of_nat k + 1) + 1) by lia.
+  rewrite (pow2_succ (Z.of_nat k + 1)) by lia. lia.
+Qed.
+
+Lemma all_nodes_le h : forall r, In r (all_nodes h) -> (length r <= h)%nat.
+Proof.
+  induction h as [|k IH]; intros r Hr.
+  - destruct Hr as [<-|[]]. cbn; lia.
+  - cbn [all_nodes] in Hr. destruct Hr as [<-|Hr]; [cbn; lia|].
+    apply in_app_or in Hr. destruct Hr as [Hr|Hr]; apply in_map_iff in Hr;
+      destruct Hr as (r' & <- & Hr'); specialize (IH r' Hr'); cbn [length]; lia.
+Qed.
+
+Lemma nth_all_nodes h : forall idx, 0 <= idx < 2 ^ (Z.of_nat h + 1) - 1 ->
+  nth (Z.to_nat idx) (all_nodes h) [] = node_at h idx.
+Proof.
+  induction h as [|k IH]; intros idx Hi.
+  - change (2 ^ (Z.of_nat 0 + 1) - 1) with 1 in Hi. replace idx with 0 by lia. reflexivity.
+  - destruct (Z.eq_dec idx 0) as [->|Hn]; [reflexivity|].
+    destruct (node_at_step k idx ltac:(lia)) as [E R]. cbn zeta in E, R. rewrite E.
+    pose proof (all_nodes_length k) as HL.
+    replace (Z.of_nat k + 1) with (Z.of_nat (S k)) in * by lia.
+    replace (Z.to_nat idx) with (S (Z.to_nat (idx - 1))) by lia.
+    cbn [all_nodes nth].
+    destruct (Z.leb_spec (2 ^ Z.of_nat (S k)) idx).
+    + rewrite app_nth2 by (rewrite map_length; lia). rewrite map_length.
+      replace (Z.to_nat (idx - 1) - length (all_nodes k))%nat with (Z.to_nat (idx - 2 ^ Z.of_nat (S k))) by lia.
+      rewrite (nth_indep _ [] (true :: [])) by (rewrite map_length; lia).
+      rewrite map_nth. f_equal. apply IH. replace (Z.of_nat k + 1) with (Z.of_nat (S k)) by lia. exact R.
+    + rewrite app_nth1 by (rewrite map_length; lia).
+      rewrite (nth_indep _ [] (false :: [])) by (rewrite map_length; lia).
+      rewrite map_nth. f_equal. apply IH. replace (Z.of_nat k + 1) with (Z.of_nat (S k)) by lia. exact R.
+Qed.
+
+Lemma filter_all {A} (f : A -> bool) l : (forall x, In x l -> f x = true) -> filter f l = l.
+Proof.
+  induction l as [|x l IH]; intros H; [reflexivity|]. cbn [filter].
+  rewrite (H x (or_introl eq_refl)). f_equal. apply IH. intros y Hy. apply H. now right.
+Qed.
+
+Lemma filter_none {A} (f : A -> bool) l : (forall x, In x l -> f x = false) -> filter f l = [].
+Proof.
+  induction l as [|x l IH]; intros H; [reflexivity|]. cbn [filter].
+  rewrite (H x (or_introl eq_refl)). apply IH. intros y Hy. apply H. now right.
+Qed.
+
+Lemma filter_map_comp {A B} (f : B -> bool) (g : A -> B) l :
+  filter f (map g l) = map g (filter (fun x => f (g x)) l).
+Proof.
+  induction l as [|x l IH]; [reflexivity|]. cbn [map filter].
+  destruct (f (g x)); cbn [map]; now rewrite IH.
+Qed.
+
+Lemma stored_nodes_full h : stored_nodes (fullT h) h = all_nodes h.
+Proof.
+  unfold stored_nodes. apply filter_all. intros r Hr. apply all_nodes_le in Hr.
+  unfold stored, fullT. replace (2 ^ (Z.of_nat h + 1) - 1) with (2 ^ (Z.of_nat h + 1) - 2 ^ 0) by reflexivity.
+  rewrite testbit_pow2_diff by lia.
+  destruct (Z.leb_spec 0 (Z.of_nat (length r))), (Z.ltb_spec (Z.of_nat (length r)) (Z.of_nat h + 1)); try lia.
+  reflexivity.
+Qed.
+
+Lemma count_before : forall h q, (length q <= h)%nat ->
+  Z.of_nat (length (filter (fun r => pre_ltb r q) (all_nodes h))) = full_rank h q.
+Proof.
+  induction h as [|k IH]; intros q Hl.
+  - destruct q; [reflexivity|cbn [length] in Hl; lia].
+  - destruct q as [|b q].
+    + rewrite filter_none; [reflexivity|]. intros r _. destruct r; reflexivity.
+    + cbn [length] in Hl. cbn [all_nodes filter full_rank].
+      change (pre_ltb [] (b :: q)) with true. cbn iota. cbn [length].
+      rewrite filter_app, app_length, !filter_map_comp, !map_length.
+      replace (S k - 1)%nat with k by lia.
+      pose proof (all_nodes_length k) as HL. replace (Z.of_nat k + 1) with (Z.of_nat (S k)) in HL by lia.
+      destruct b.
+      * rewrite (filter_all (fun x => pre_ltb (false :: x) (true :: q))) by (intros; reflexivity).
+        rewrite (filter_ext (fun x => pre_ltb (true :: x) (true :: q)) (fun r => pre_ltb r q)) by (intros; reflexivity).
+        specialize (IH q ltac:(lia)). lia.
+      * rewrite (filter_none (fun x => pre_ltb (true :: x) (false :: q))) by (intros; reflexivity).
+        rewrite (filter_ext (fun x => pre_ltb (false :: x) (false :: q)) (fun r => pre_ltb r q)) by (intros; reflexivity).
+        specialize (IH q ltac:(lia)). cbn [length]. lia.
+Qed.
+
+Lemma enum_rank_full_rank h q : (length q <= h)%nat -> enum_rank h q = full_rank h q.
+Proof.
+  intros Hl. unfold enum_rank, pre_rank. rewrite stored_nodes_full. now apply count_before.
+Qed.
+
+Lemma enum_node_at_eq h idx : 0 <= idx < 2 ^ (Z.of_nat h + 1) - 1 -> enum_node_at h idx = node_at h idx.
+Proof. apply nth_all_nodes. Qed.
+
+(** * the checker of the correspondence run is exactly the functional specification *)
+
+Lemma dec_enc h q : (h <= 32)%nat -> (length q <= h)%nat -> dec h (enc h q) = q.
+Proof.
+  intros Hh Hl. unfold dec.
+  change (enc h q mod 2 ^ 32) with (u32 (enc h q)). rewrite enc_mod32, enc_div32 by assumption.
+  rewrite popcount_maskL by exact Hl. rewrite Nat2Z.id.
+  unfold valL. rewrite Z.div_mul by (pose proof (pow2_pos (Z.of_nat h - Z.of_nat (length q))); lia).
+  rewrite bits_val_msb. apply rev_involutive.
+Qed.
+
+Lemma c05_rank_eq h q : (length q <= h)%nat ->
+  (if (h <=? enum_max)%nat then enum_rank h q else full_rank h q) = full_rank h q.
+Proof. intros Hl. destruct (h <=? enum_max)%nat; [now apply enum_rank_full_rank|reflexivity]. Qed.
+
+Lemma check_exact h idx w : (h <= 30)%nat -> 0 <= idx < 2 ^ (Z.of_nat h + 1) - 1 ->
+  check_index_to_path h idx w = true <-> w = enc h (node_at h idx).
+Proof.
+  intros Hh Hi. unfold check_index_to_path, wf_word. split.
+  - intros H. apply andb_prop in H. destruct H as [H1 H2]. apply andb_prop in H1. destruct H1 as [Hl He].
+    apply Nat.leb_le in Hl. apply Z.eqb_eq in He.
+    rewrite c05_rank_eq in H2 by exact Hl. apply Z.eqb_eq in H2.
+    rewrite <- He at 1. f_equal. rewrite <- H2. symmetry. now apply node_at_full_rank.
+  - intros ->. pose proof (node_at_length h idx) as Hl.
+    rewrite dec_enc by (try lia; exact Hl). rewrite c05_rank_eq by exact Hl.
+    rewrite full_rank_node_at by exact Hi. rewrite Z.eqb_refl.
+    apply Nat.leb_le in Hl. rewrite Hl. reflexivity.
+Qed.
+
+Lemma spec_index_to_path_eq h idx : 0 <= idx < 2 ^ (Z.of_nat h + 1) - 1 ->
+  spec_index_to_path h idx = enc h (node_at h idx).
+Proof.
+  intros Hi. unfold spec_index_to_path. destruct (h <=? enum_max)%nat; [|reflexivity].
+  now rewrite enum_node_at_eq.
+Qed.
